@@ -7,8 +7,8 @@ from .observe import Recorder
 
 INVS = ['InvStackBounded', 'InvItemBounded', 'InvPcInRange', 'InvDepthBounded', 'InvLoopBounded',
         'InvConfigUniform', 'InvReturnScoped', 'InvNoPrimMiss', 'InvTopAtBoundary', 'InvVerdictExact',
-        'InvAllScriptsRan', 'EmitDone']
-PROPS = ['NoSkip', 'CfgFrozen', 'NopExact']
+        'InvAllScriptsRan', 'InvEmbedderFlags', 'EmitDone']
+PROPS = ['NoSkip', 'CfgFrozen', 'NopExact', 'FlagsOnlyByFlagOps', 'PluginOnce']
 
 
 def cfg_text(family: str, depth: int, emit: bool = True, invs=None, props=None) -> str:
